@@ -56,6 +56,8 @@ def build():
 """, loops={1: """
     invariant brk__ is None ==> true, w.pending_clean.len() == 0, !w.hooks_ok, !w.cert_written, w.cur_auth is None, w.downloaded is None,
     ensures brk__ is Some, w.pending_clean.len() == 0, !w.hooks_ok, !w.cert_written, w.cur_auth is None, w.downloaded is None,
+    // the newOrder step is tried at most twice: once more after one re-registration, never again
+    decreases (if new_reg { 0int } else { 1int }), //@C07.the_new_order_step_is_tried_at_most_twice,C08.the_new_order_step_is_tried_at_most_twice
 """, 2: """
     invariant w.pending_clean == clean_views(hook_datas@), hook_datas@.len() == 0, !w.hooks_ok, !w.cert_written, w.downloaded is None,
 """, 3: """
@@ -109,15 +111,18 @@ def build():
         // another CSR, and its certificate is for that other key
         assert(order.status is Ready); //@C03.only_an_order_that_is_ready_is_finalized,C01.only_an_order_that_is_ready_is_finalized
     }"""),
+            ("before_stmt_re", r"let \w+ = order\s*\.certificate", 1, "let ghost order_cert__ = order.certificate;"),
             ("before_stmt", "http::get_certificate(", 1, """
     proof {
+        // what is downloaded is what the order names as its certificate
+        w.cert_url = match order_cert__ { Some(u) => Some(u@), None => None };
         // the certificate is fetched only from an order the CA reports valid (an announced URL alone is not an issued certificate)
         assert(order.status is Valid); //@C03.certificate_is_downloaded_only_from_a_valid_order,C07.certificate_is_downloaded_only_from_a_valid_order
     }"""),
             ("before_stmt_re", r"\.register\(", 1, """
                     proof {
                         // the account is registered again from here only because the CA has just answered that it does not know it
-                        assert(crate::shims::err_is(e, AcmeError::AccountDoesNotExist)); //@C11.account_is_registered_again_only_when_the_ca_reports_it_unknown
+                        assert(crate::shims::err_is(e, AcmeError::AccountDoesNotExist)); //@C11.account_is_registered_again_only_when_the_ca_reports_it_unknown,C08.a_refused_request_is_sent_again_only_after_account_does_not_exist
                     }"""),
             ("before_stmt", "hook_datas.clear()", 1, "proof { assert(hook_datas@.skip(hook_datas@.len() as int) =~= Seq::empty()); }"),
             ("after_stmt", "hook_datas.clear()", 1, "proof { assert(clean_views(hook_datas@) =~= Seq::empty()); }"),
@@ -139,5 +144,6 @@ pub tracked struct World {
     pub ghost cert_written: bool,
     pub ghost pair_installed: bool,     // a certificate and its matching key were on disk when the attempt started
     pub ghost disk_key: Option<int>,    // identity of the key in the key file, when known
+    pub ghost cert_url: Option<Seq<char>>, // the certificate URL the (valid) order gives, once it has been read from it
 }
 """
